@@ -160,14 +160,14 @@ class Hang(Exception):
 
 def render_outcome(html, limit_s=20):
     """'ok' or `err:<Class>@<file>:<function>` (innermost weasyprint frame) for render + write_pdf; a render that
-    exceeds `limit_s` seconds of wall clock is the outcome `err:Hang@<frame>`."""
+    exceeds `limit_s` seconds of CPU time is the outcome `err:Hang@<frame>`."""
     import signal
     import traceback
 
     def on_alarm(signum, frame):
         raise Hang()
-    previous = signal.signal(signal.SIGALRM, on_alarm)
-    signal.alarm(limit_s)
+    previous = signal.signal(signal.SIGPROF, on_alarm)
+    signal.setitimer(signal.ITIMER_PROF, limit_s)
     try:
         document = docs.render(html)
         data = document.write_pdf()
@@ -180,8 +180,8 @@ def render_outcome(html, limit_s=20):
         where = f'{frames[-1].filename.split("/")[-1]}:{frames[-1].name}' if frames else 'unknown'
         return f'err:{type(exc).__name__}@{where}'
     finally:
-        signal.alarm(0)
-        signal.signal(signal.SIGALRM, previous)
+        signal.setitimer(signal.ITIMER_PROF, 0)
+        signal.signal(signal.SIGPROF, previous)
 
 
 def fits_cases(rng, features=None, focus=None):
